@@ -239,6 +239,8 @@ pub fn run(ctx: &Ctx) -> i32 {
     let n_direct = ctx.tier.pick(8, 64);
     let pure_n = ctx.tier.pick(20_000, 500_000);
     let race_rounds = ctx.tier.pick(60_000, 400_000);
+    let n_real = ctx.tier.pick(4, 32);
+    let real_rounds = ctx.tier.pick(150, 600);
     let mut summary = runner::run_scenarios(&cfg, move |i, s| {
         if i < n_pure {
             super::direct::c05_pure(i, s, pure_n)
@@ -247,6 +249,9 @@ pub fn run(ctx: &Ctx) -> i32 {
         } else if i < n_pure + n_direct + 8 {
             // close notifications racing registrations on two threads (shared with C04)
             super::direct::c04_race(i, s, race_rounds)
+        } else if i < n_pure + n_direct + 8 + n_real {
+            // real sockets, 4 worker threads: true parallelism between the two connection managers
+            super::realnet::mutual_scenario(i, s, real_rounds)
         } else {
             scenario(i, s)
         }
@@ -267,7 +272,7 @@ pub fn run(ctx: &Ctx) -> i32 {
         tier: ctx.tier,
         seed: ctx.seed,
         level: "exploration",
-        rule: "three kinds. (1) pure decision: the real tie-break function on random and structured identity pairs for all origin pairs; both sides and both arrival orders must keep the same dial, equal to 'dialed by the greater PeerId'. (2) direct drive: two bare endpoints, two real connections (one dialed each way), a stand-alone active-peer set per side; ALL 24 orders of the four registrations, followed by the late handler exits of the replaced connections in both orders; each side ends with one entry for the same physical connection, survivor open, loser closed, events N or NLN. (3) scenario = two real Networks on the simulated fabric dialing each other with a seeded start offset in [-3RTT,3RTT], per-direction random latency, optional loss/dup; non-trivial = both dials completed; distinct by (id order, per-side NewPeer/LostPeer sequence, which dial survived)".into(),
+        rule: "four kinds. (0) real sockets: two Networks on UDP loopback and a 4-worker runtime dial each other simultaneously (barrier, 0-800 us skew) for 150 (thorough 600) rounds; per round both list each other exactly once (a wrong listing is a verdict only when unchanged for 5 s), events alternate N/L and end connected, RPCs succeed both ways, nothing changes in a quiet window. (1) pure decision: the real tie-break function on random and structured identity pairs for all origin pairs; both sides and both arrival orders must keep the same dial, equal to 'dialed by the greater PeerId'. (2) direct drive: two bare endpoints, two real connections (one dialed each way), a stand-alone active-peer set per side; ALL 24 orders of the four registrations, followed by the late handler exits of the replaced connections in both orders; each side ends with one entry for the same physical connection, survivor open, loser closed, events N or NLN. (3) scenario = two real Networks on the simulated fabric dialing each other with a seeded start offset in [-3RTT,3RTT], per-direction random latency, optional loss/dup; non-trivial = both dials completed; distinct by (id order, per-side NewPeer/LostPeer sequence, which dial survived)".into(),
         assumptions: vec![
             "QUIC/TLS run on tokio's virtual clock over an in-memory datagram fabric (socket hook)".into(),
             "interleavings are those produced by seeded latencies/offsets, not an enumeration".into(),
@@ -276,6 +281,6 @@ pub fn run(ctx: &Ctx) -> i32 {
         extra: Default::default(),
         exhaustive: None,
         min_signatures: 4,
-        required_counters: vec!["mutual_dials_completed", "pure_decisions_checked", "direct_registration_orders", "race_rounds"],
+        required_counters: vec!["mutual_dials_completed", "pure_decisions_checked", "direct_registration_orders", "race_rounds", "realnet_mutual_both_ok"],
     })
 }
